@@ -23,4 +23,15 @@ func ast.Walk
 // Render: if anything failed on the way to the writer, the result is not nil (C14).
 func (*renderer).Render
   ensures [surfaces] result == nil ==> !failed(local(writer))
+
+// ---- dispatch (C20): a node whose kind has no renderer function is skipped without failing ----
+ghost kindOf(v addr) int
+iface ast.Node.Kind
+  ensures result == kindOf(recv)
+  modifies nothing
+
+macro rfuncs(r) = (*r).nodeRendererFuncs
+func (*renderer).Render$2
+  requires n != nil && *r != nil
+  ensures [skip] old(kindOf(n) < 0 || kindOf(n) >= len(rfuncs(r)) || rfuncs(r)[kindOf(n)] == nil) ==> (result0 == ast.WalkContinue && result1 == nil)
 @*/
